@@ -446,4 +446,42 @@ theorem loadPrim_toStr (fuel : Nat) (p : Prim) (h : p.IsInt) (rest : Bytes) (hr 
     simpa using this
   · simp only [hT]
 
+/-- the number read back has the same mathematical value; only INT64_MIN comes back as uint64 2^63 -/
+theorem reload_value (p : Prim) (h : p.IsInt) :
+    (reloaded p.val.natAbs (if p.ty.isLong then 1 else 0) (decide (p.val < 0))).2 = p.val
+      ∨ (p.ty = .i64 ∧ p.val = -9223372036854775808
+          ∧ reloaded p.val.natAbs (if p.ty.isLong then 1 else 0) (decide (p.val < 0)) = (.u64, 9223372036854775808)) := by
+  obtain ⟨_, hr, ht⟩ := h
+  unfold Prim.InRange at hr
+  unfold reloaded signedLiteral
+  simp only []
+  by_cases hv : p.val < 0
+  · have hval : -(p.val.natAbs : Int) = p.val := by omega
+    simp only [hv, decide_true, if_true, hval]
+    by_cases hmin : p.val = -9223372036854775808
+    · right
+      have hty : p.ty = .i64 := by
+        rcases ht with ht | ht | ht | ht | ht | ht | ht | ht <;> rw [ht] at hr <;>
+          simp only [PType.wrap, wrapS, wrapU, p7, p8, p15, p16, p31, p32, p63, p64] at hr <;>
+          first | exact ht | omega
+      have hna : p.val.natAbs = 9223372036854775808 := by omega
+      have hlit : intLiteral p.val.natAbs true false (if p.ty.isLong then 1 else 0) = .u64 := by
+        rw [intLiteral_dec, hna]; simp
+      refine ⟨hty, hmin, ?_⟩
+      rw [hlit, hmin]
+      simp [PType.wrap, wrapU, p64]
+    · left
+      have hb : p.val.natAbs ≤ 9223372036854775807 := by
+        rcases ht with ht | ht | ht | ht | ht | ht | ht | ht <;> rw [ht] at hr <;>
+          simp only [PType.wrap, wrapS, wrapU, p7, p8, p15, p16, p31, p32, p63, p64] at hr <;> omega
+      rw [intLiteral_dec]
+      by_cases h1 : (if p.ty.isLong then 1 else 0) = 0 ∧ p.val.natAbs ≤ 2147483647
+      · rw [if_pos h1]
+        simp only [PType.wrap, wrapS, p31, p32]; omega
+      · rw [if_neg h1, if_pos hb]
+        simp only [PType.wrap, wrapS, p63, p64]; omega
+  · left
+    have hval : (p.val.natAbs : Int) = p.val := by omega
+    simp only [hv, decide_false, Bool.false_eq_true, if_false, hval]
+
 end Occa.Json
